@@ -20,13 +20,14 @@ type inbound struct {
 
 // MsgMeta describes one scripted inbound item (index K in send order).
 type MsgMeta struct {
-	K     int    `json:"k"`
-	Type  string `json:"type"` // envelope type; "" for a close / undecodable frame
-	ID    string `json:"id"`
-	Tag   string `json:"tag,omitempty"`   // subscribe: the unique tag argument of its query
-	Query string `json:"query,omitempty"` // subscribe / mutate
-	Raw   string `json:"raw,omitempty"`
-	Close bool   `json:"close,omitempty"` // ReadJSON returns an error
+	K     int                    `json:"k"`
+	Type  string                 `json:"type"` // envelope type; "" for a close / undecodable frame
+	ID    string                 `json:"id"`
+	Tag   string                 `json:"tag,omitempty"`   // subscribe: the unique tag argument of its query
+	Query string                 `json:"query,omitempty"` // subscribe / mutate
+	Vars  map[string]interface{} `json:"vars,omitempty"`
+	Raw   string                 `json:"raw,omitempty"`
+	Close bool                   `json:"close,omitempty"` // ReadJSON returns an error
 }
 
 // Socket is a graphql.JSONSocket whose ReadJSON plays the messages the
